@@ -49,7 +49,7 @@ c19=[job("nil-stream",".","VH_ReassemblerNilStream",["C19/"],bounds="symbolic ma
      job("api-k3-inf",".","VH_Reassembler",["C19/"],{"k":3,"maxInFlight":2},Q,bounds="k=3 then Close, post-Close Maintain/Close; infinite timeout")]
 c19.append(job("api-k2-postclose2",".","VH_Reassembler",["C19/"],{"k":2,"maxInFlight":2,"postclose":2},Q,bounds="k=2 then Close, then 2 more pushes (symbolic), then Maintain and Close: both fail and deliver nothing, whatever the late pushes left buffered"))
 c19.append(job("api-k2-postclose2-mif0",".","VH_Reassembler",["C19/"],{"k":2,"maxInFlight":0,"postclose":2},T,bounds="as api-k2-postclose2 with maxInFlight=0"))
-c19.append(job("api-k3-postclose3",".","VH_Reassembler",["C19/"],{"k":3,"maxInFlight":2,"postclose":3},T,bounds="k=3, Close, 3 pushes, Maintain, Close"))
+c19.append(job("api-k3-postclose1",".","VH_Reassembler",["C19/"],{"k":3,"maxInFlight":2,"postclose":1},T,bounds="k=3, Close, 1 push, Maintain, Close"))
 c19.append(job("api-k3-maxduration",".","VH_Reassembler",["C19/"],{"k":3,"maxInFlight":2,"timeout_mode":6},Q,bounds="k=3 then Close; timeout = the largest time.Duration (2^63-1 ns)"))
 c19.append(job("api-k3-250years",".","VH_Reassembler",["C19/"],{"k":3,"maxInFlight":1,"timeout_mode":7},Q,bounds="k=3 then Close; timeout = 250 years"))
 for tm,name in [(1,"-1s"),(2,"0"),(3,"5ms"),(4,"2s")]:
